@@ -53,6 +53,7 @@ def run(ck):
     # large instances: planted perfect packings (certificate => OPT = total / C), judged by JCertPack
     big = gen.planted_packings(ck.rng, 40 if q else 2500, maxitems=80 if q else 300)
     big += [dict(ff17_family(m), cert=[]) for m in (1, 2)] + [dict(ffd_family(m), cert=[]) for m in (1, 2)]
+    big += [dict(g, cert=[]) for g in gen.long_families(ck.rng, 60 if q else 3000)]     # 65-260 items: code paths chosen by input size
     for g in big:
         g["calls"] = [pcall(a, "list", extra=False) for a in FIT4]
         g["orc"] = 0
